@@ -66,7 +66,7 @@ def rpm_op(draw, families, allow_breaks=True):
         srpm_arg = srpm
     op = {"variant": draw(st.sampled_from(VARIANTS)), "arch": draw(st.sampled_from(ARCHES)), "nevra": nevra,
           "path": draw(st.one_of(gen.rel_path, st.just("Server/x86_64/os/Packages/g/x.rpm"))),
-          "sigkey": draw(st.one_of(st.none(), st.sampled_from(["246110C1", "246110c1", "FD431D51", "abcdef01", "ABCDEF01", "aBcDeF"]))),
+          "sigkey": draw(st.one_of(st.none(), st.sampled_from(["246110C1", "246110c1", "FD431D51", "abcdef01", "ABCDEF01", "aBcDeF", "", "0", " "]))),
           "category": kind, "srpm": srpm_arg, "break": None}
     if allow_breaks and draw(st.integers(0, 3)) == 0:
         brk = draw(st.sampled_from(["arch", "category", "abs-path", "no-epoch", "unparsable", "srpm-missing", "srpm-for-source",
